@@ -474,6 +474,96 @@ func engRespawn(depth int) vsched.Instance {
 	return vsched.Instance{Body: body, Check: check, Outcome: outcome}
 }
 
+// engStopWaitRespawn: stop (or poison) an actor, wait until the stop context is done, spawn the same
+// id again at once - while 0-2 other pending stop requests are still being acknowledged. The moment a
+// stop is acknowledged the id is free: the respawn must run its producer, publish no duplicate
+// event, and own the id from then on.
+type swrParams struct {
+	Stop   int // 1 Poison, 2 Stop
+	Others int // further stop requests issued by other threads beforehand
+	Child  bool
+}
+
+func (p swrParams) String() string { return fmt.Sprintf("stop%dothers%dchild%v", p.Stop, p.Others, p.Child) }
+
+func engStopWaitRespawn(variants []swrParams) vsched.Instance {
+	var k *Kit
+	var p swrParams
+	var bad []vsched.Violation
+	body := func() {
+		bad = nil
+		p = variants[chooseVariant(len(variants))]
+		k = NewKit()
+		var parentCtx *actor.Context
+		var pid *actor.PID
+		spawn := func(name string) *actor.PID {
+			if p.Child {
+				return parentCtx.SpawnChild(k.Producer(name, nil), "x", actor.WithID("1"))
+			}
+			return k.E.Spawn(k.Producer(name, nil), "x", actor.WithID("1"))
+		}
+		if p.Child {
+			k.E.Spawn(k.Producer("P", func(k *Kit, c *actor.Context, inc int) {
+				switch m := c.Message().(type) {
+				case actor.Started:
+					parentCtx = c
+					pid = spawn("X")
+				case string:
+					if m == "respawn" {
+						spawn("X2")
+					}
+				}
+			}), "p", actor.WithID("1"))
+		} else {
+			pid = spawn("X")
+		}
+		vsched.EndSetup()
+		// the other requests are ISSUED before ours is acknowledged (issued later they would rightly stop the
+		// respawned actor); only the waiting happens on threads of their own
+		for i := 0; i < p.Others; i++ {
+			octx := k.E.Stop(pid)
+			vsched.Go("other-stopper", func() { vsched.Recv(octx.Done()) })
+		}
+		var done <-chan struct{}
+		if p.Stop == 1 {
+			done = k.E.Poison(pid).Done()
+		} else {
+			done = k.E.Stop(pid).Done()
+		}
+		vsched.Recv(done)
+		if p.Child {
+			k.E.Send(actor.NewPID("local", "p/1"), "respawn")
+			vsched.Quiesce()
+		} else {
+			spawn("X2")
+		}
+		if k.Incs("X2") != 1 {
+			bad = append(bad, V("respawn/free-id-not-spawned", "%s: the stop of %s was acknowledged, yet spawning the id again ran the producer %d times; log: %s", p, pid, k.Incs("X2"), k.LogString()))
+		}
+		k.E.Send(pid, 7)
+		vsched.Quiesce()
+		got := userMsgs(k.Recv("X2"))
+		if k.Incs("X2") == 1 && (len(got) != 1 || got[0].Raw != any(7)) {
+			bad = append(bad, V("respawn/message-to-respawned-id-lost", "%s: the respawned actor received %v, want [7]; log: %s", p, got, k.LogString()))
+		}
+		if k.Incs("X2") == 1 && k.E.Registry.GetPID("p/1/x", "1") == nil && k.E.Registry.GetPID("x", "1") == nil {
+			bad = append(bad, V("respawn/getpid-nil-for-live-actor", "%s: GetPID is nil for the respawned actor; log: %s", p, k.LogString()))
+		}
+	}
+	check := func(r *vsched.Result) []vsched.Violation {
+		vs := stdEnd(r)
+		if len(vs) > 0 {
+			return vs
+		}
+		vs = append(vs, k.serial()...)
+		if n := len(k.EventsMatching("ActorDuplicateId")); n != 0 {
+			vs = append(vs, V("respawn/duplicate-event-for-free-id", "%s: %d ActorDuplicateIdEvent although the id was free; log: %s", p, n, k.LogString()))
+		}
+		return append(vs, bad...)
+	}
+	return vsched.Instance{Body: body, Check: check, Outcome: func() string { return p.String() + "|" + k.LogString() }}
+}
+
 // ------------------------------------------------------------------ C09 dead letters
 
 type dlParams struct {
@@ -928,6 +1018,79 @@ func engRespawnRace(variants []respawnParams) vsched.Instance {
 			s += fmt.Sprintf(" %s@%d", o.what, o.at)
 		}
 		return s + " " + k.LogString()
+	}
+	return vsched.Instance{Body: body, Check: check, Outcome: outcome}
+}
+
+// ------------------------------------------------------------------ C02: a worker that never finds its inbox empty
+
+// engSelfSend: an actor that sends itself the next tick from every tick, plus an outside sender,
+// so that one worker keeps finding messages for more iterations than the inbox's throughput
+// budget (built with actor.defaultThroughput scaled to 3): whatever the worker does when the
+// budget is used up, there is still one Receive at a time, each after the previous one, and
+// every message is handled once.
+func engSelfSend(ticks, outside int) vsched.Instance {
+	var k *Kit
+	body := func() {
+		k = NewQuietKit()
+		vsched.EndSetup()
+		var pid *actor.PID
+		pid = k.E.Spawn(k.Producer("A", func(k *Kit, c *actor.Context, inc int) {
+			vsched.Yield()
+			if m, ok := c.Message().(int); ok && m < ticks {
+				c.Send(pid, m+1)
+			}
+		}), "a", actor.WithID("1"), actor.WithInboxSize(2))
+		k.E.Send(pid, 1)
+		if outside > 0 {
+			vsched.Go("sender", func() {
+				for i := 0; i < outside; i++ {
+					k.E.Send(pid, 1000+i)
+				}
+			})
+		}
+		vsched.Quiesce()
+	}
+	check := func(r *vsched.Result) []vsched.Violation {
+		vs := stdEnd(r)
+		if len(vs) > 0 {
+			return vs
+		}
+		vs = append(vs, k.serial()...)
+		cnt := map[int]int{}
+		lastTick := 0
+		for _, e := range userMsgs(k.Recv("A")) {
+			id := e.Raw.(int)
+			cnt[id]++
+			if id < 1000 {
+				if id != lastTick+1 {
+					vs = append(vs, V("order/ticks-out-of-order", "tick %d after %d; log: %s", id, lastTick, k.LogString()))
+				}
+				lastTick = id
+			}
+		}
+		for i := 1; i <= ticks; i++ {
+			if cnt[i] != 1 {
+				vs = append(vs, V("loss-or-duplicate/tick", "tick %d handled %d times; log: %s", i, cnt[i], k.LogString()))
+			}
+		}
+		for i := 0; i < outside; i++ {
+			if cnt[1000+i] != 1 {
+				vs = append(vs, V("loss-or-duplicate/outside-message", "message %d handled %d times; log: %s", 1000+i, cnt[1000+i], k.LogString()))
+			}
+		}
+		if in := actor.VerifProcInbox(k.E, actor.NewPID("local", "a/1")); in != nil {
+			if st, ln := actor.VerifInboxStatus(in), actor.VerifInboxLen(in); st != actor.VerifIdle || ln != 0 {
+				vs = append(vs, V("end-state/not-idle-empty", "at quiescence status=%d len=%d", st, ln))
+			}
+		}
+		return vs
+	}
+	outcome := func() string {
+		if k == nil {
+			return ""
+		}
+		return k.LogString()
 	}
 	return vsched.Instance{Body: body, Check: check, Outcome: outcome}
 }
